@@ -30,6 +30,7 @@ type muxStream struct{ baseStream }
 func init() { register(muxStream{}) }
 
 func (muxStream) Name() string    { return "mux" }
+func (muxStream) Parallel() bool  { return true } // no shared state: cases run on all cores
 func (muxStream) Props() []string { return []string{"C07", "C06"} }
 
 type mxMemb struct {
